@@ -157,6 +157,18 @@ def check_obligations(ctx, theorems):
             broken.append(t)
     if not ok:
         ctx.notes.append('lean reported errors on ' + rel + ': ' + out[-1500:])
+    # theorems of further proof modules built for this property (their `#print axioms` lines are in the build log)
+    for rel2, names in (PROPS.get(ctx.pid, {}).get('extra_audit') or {}).items():
+        ax2 = lean_tools.axioms_from_log(ctx.build_log, rel2)
+        for t in names:
+            if t not in ax2:
+                ctx.obligations.append({'name': t, 'ok': False, 'detail': f'no #print axioms line from {rel2} in the build log'})
+                broken.append(t)
+                continue
+            extra = [a for a in ax2[t] if a not in lean_tools.ALLOWED_AXIOMS]
+            ctx.obligations.append({'name': t, 'ok': not extra, 'axioms': ax2[t]})
+            if extra:
+                broken.append(t)
     return broken
 
 
@@ -1748,8 +1760,12 @@ PROPS = {
     'C15': dict(run=run_C15, theorems=['HabuVerif.C15.' + t for t in [
         'shapes_2021', 'shapes_2022', 'shapes_2023', 'overpayment_and_amount_owed', 'refund_and_applied',
         'solved_return_balances', 'stored_money_is_cent_valued', 'over_owed', 'refund_split']],
-        assumptions=['PARTIAL: proved for the federal balance lines (1040 lines 34, 35a, 36, 37) in exact cents, amounts up to 1e13 cents; the NC balance and the non-negativity of the other lines are checked on explored returns only (no verified sign analysis yet)',
-                     'CatWF of the translated catalogue is a hypothesis of solved_return_balances (names are form.line)']),
+        extra_audit={'HabuVerif/Proofs/C15NC.lean': ['HabuVerif.C15.' + t for t in [
+            'nc_shapes_2021', 'nc_shapes_2022', 'nc_shapes_2023', 'nc_tax_total', 'nc_payments_total', 'nc_payments_net',
+            'nc_overpayment_or_due', 'nc_balance', 'nc_amount_refunded', 'nc_applied_total', 'nc_amount_due_total',
+            'nc_refund_line', 'solved_nc_return_balances', 'solved_nc_stored_dollar']]},
+        assumptions=['proved for the federal balance lines (1040 lines 34, 35a, 36, 37) in exact cents (amounts up to 1e13 cents) and for the NC D-400 balance lines (19, 23, 25, 26a, 27, 28, 33, 34, refund) in exact whole dollars (up to 1e13 dollars)',
+                     'PARTIAL: the non-negativity of the remaining lines is checked on explored returns only (no verified sign analysis)']),
     'C16': dict(run=run_C16, theorems=['HabuVerif.C16.' + t for t in [
         'shapes_2021', 'shapes_2022', 'shapes_2023', 'withholding_total', 'renumbering_keeps_withholding',
         'net_is_payments_minus_tax', 'solved_net_is_payments_minus_tax', 'withholding_one_for_one',
